@@ -235,7 +235,13 @@ class C18(Property):
                     ctx.fail("build_graph:source-not-available", f"graph {case['idx']}: sources {srcs}", replay)
             deps = " ".join(f"{t['id']}:{','.join(map(str, t['deps']))}" for t in case["tokens"] if t["deps"]) or "-"
             stops = ",".join(str(i) for i, v in stop.items() if v) or "-"
-            lines.append(f"bg {4 * len(case['tokens']) + 8} | {','.join(map(str, case['inputs']))} | {stops} | {deps}")
+            # fuel = N = number of tokens: the bound of `build_graph_fuel_sufficient`; its hypotheses are measured here
+            ntok = len(case["tokens"])
+            if not (all(t["id"] not in t["deps"] and all(d < ntok for d in t["deps"]) for t in case["tokens"])
+                    and len(set(case["inputs"])) == len(case["inputs"]) and all(i < ntok for i in case["inputs"])):
+                ctx.disagree("hypotheses of build_graph_fuel_sufficient", f"graph {case['idx']}: self-dependency, token id out of range or "
+                             f"duplicate input", {"graph": case})
+            lines.append(f"bg {ntok} | {','.join(map(str, case['inputs']))} | {stops} | {deps}")
             if real["outcome"] == "ok":
                 exp = "ok nodes=" + (",".join(map(str, real["nodes"])) or "-") + " edges=" + ",".join(f"{a}>{b}" for a, b in sorted(map(tuple, real["edges"])))
             else:
